@@ -257,10 +257,13 @@ CHECKS["C16"] = {
             "the next deadline (30 s bind timeout, permission, lifetime) -/+1ns}; oracle: connection ids pairwise distinct and backed by a real simnet connection from / at the relayed address, inbound ones only from permitted IPs "
             "(others closed without indication, nothing reaches another client), bind succeeds exactly once, only for the allocation's user, only before 30 s, after which the peer connection is closed; bound streams are equal as "
             "byte sequences in both directions, nothing echoed, close propagates; duplicate Connect -> 446 and a further request is still served; after every event relay-side connections == model, AllocationCount, relay "
-            "listeners; (thorough) also with the deny-B operator policy: refused target never dialled.",
+            "listeners; (thorough) also with the deny-B operator policy: refused target never dialled. "
+            "Part genconn: the bundled generators (static, range, pass-through) x tcp4/tcp6 x wildcard/specific listen address x relay address equal to / different from the default source address: "
+            "AllocateConn called as the allocation manager calls it reaches one and two peers from exactly the advertised relayed address and port, and the relay listener still accepts afterwards.",
     "parts": [A("vtx", "./checks/c16", "TestC16", budget={"quick": 120, "thorough": 1800}),
               A("sched", "./checks/bsem", "TestC16Sched", overlay=True, gomaxprocs=1, budget={"quick": 90, "thorough": 1500}),
-              A("client-e2e", "./checks/c16", "TestC16ClientE2E", budget={"quick": 90, "thorough": 900})],
+              A("client-e2e", "./checks/c16", "TestC16ClientE2E", budget={"quick": 90, "thorough": 900}),
+              A("genconn", "./checks/c16", "TestC16GenConn", nshards=1, budget={"quick": 60, "thorough": 60})],
 }
 
 CHECKS["C12"] = {
